@@ -9,6 +9,7 @@ One simulated run = one seeded *workload* (shapes + a history of queries and edi
       separate population, with injected worker faults.
 Every observable of (b) must equal (a) after the affine mapping the statement itself names.
 """
+import json
 import os
 import pickle
 import sys
@@ -164,6 +165,17 @@ def gen(prop, stream, tier, avoid):
         ops = [o for o in ops if o["op"] != "cadd"]
         at = kn.randint(0, len(ops))
         ops = ops[:at] + motif + ops[at:]
+    # the same query again later in the same process (memoised helpers meet their own earlier entries)
+    pure = [o_ for o_ in ops if o_["op"] in ("eval", "eval_list", "deriv", "tangent", "normal", "voxelize", "tessellate", "length",
+                                             "hodograph", "find_ctrlpts", "sample")]
+    for _ in range(kn.pick([0, 0, 1, 1, 2])):
+        if pure:
+            again = json.loads(json.dumps(kn.pick(pure)))
+            ops.insert(kn.randint(0, len(ops)), again)
+    vox = [j for j, o_ in enumerate(ops) if o_["op"] == "voxelize"]
+    if vox and kn.chance(0.6):
+        j = kn.pick(vox)
+        ops.insert(j + 1, json.loads(json.dumps(ops[j])))      # the very same voxelisation twice in a row
     sibs = [(i, sp["share_kv_with"]) for i, sp in enumerate(objs) if "share_kv_with" in sp]
     if sibs and kn.chance(0.6):
         # motif: two objects built from the same knot vector lists; one of them loses a knot, the other one is queried afterwards
